@@ -677,3 +677,56 @@ def xa_unit(n_hits):
 
 
 UNITS += [xa_unit(0), xa_unit(1), xa_unit(2)]
+
+
+# ------------------------------------------------------------------------------ assignReads: single feature tags, and BED regions
+def assign_args_with(extra_attrs):
+    base = assign_args(False)
+
+    def mk(eng, name):
+        o = base(eng, name)
+        o.attrs.update(extra_attrs)
+        return o
+    return mk
+
+
+assign_single = Contract(
+    PROP, F + '::assignReads', name='assignReads[single feature tags reference_name and DS]',
+    params={'read': assign_read, 'countTable': count_table, 'args': assign_args(False), 'joinFeatures': ('const', False),
+            'featureTags': ('const', ['reference_name', 'DS']), 'sampleTags': ('const', ['SM']), 'more_args': ('const', []),
+            'blacklist_dic': 'none'},
+    setup=assign_setup,
+    requires=['read.has_tag("SM")', 'read.has_tag("DS")'],
+    ensures={
+        'nothing_counted_when_filtered': 'implies(not PASSES, len(countTable) == 0 and result == 0)',
+        # every feature tag is its own row: the contig and the (textual) value of DS, each with the documented weight
+        'one_cell_per_feature_tag_under_the_own_sample':
+            'implies(PASSES, len(countTable) == 1 and all(s == %s and len(countTable[s]) == 2 and '
+            'countTable[s]["chrA"] * %s == %s and countTable[s][str(read.get_tag("DS"))] * %s == %s for s in countTable))'
+            % (SAMPLE, DIV, BASE_W, DIV, BASE_W),
+    },
+    raises={},
+    assumptions=['configuration: -featureTags reference_name,DS (not joined), -sampleTags SM, no bin/bed/byValue/splitFeatures; '
+                 'the table starts empty'],
+)
+
+assign_bed = Contract(
+    PROP, F + '::assignReads', name='assignReads[BED region, joined feature reference_name]',
+    params={'read': assign_read, 'countTable': count_table, 'args': assign_args_with({'bedfile': 'regions.bed'}),
+            'joinFeatures': ('const', True), 'featureTags': ('const', ['reference_name']), 'sampleTags': ('const', ['SM']),
+            'more_args': lambda e, n: [named(INT, 'region_start'), named(INT, 'region_end'), named(STR, 'region_name')],
+            'blacklist_dic': 'none'},
+    setup=assign_setup,
+    requires=['read.has_tag("SM")'],
+    ensures={
+        'nothing_counted_when_filtered': 'implies(not PASSES, len(countTable) == 0 and result == 0)',
+        'counted_once_under_the_region_it_was_fetched_for':
+            'implies(PASSES, len(countTable) == 1 and all(s == %s and len(countTable[s]) == 1 and '
+            'all(k == ("chrA", more_args[0], more_args[1], more_args[2]) and countTable[s][k] * %s == %s for k in countTable[s]) '
+            'for s in countTable))' % (SAMPLE, DIV, BASE_W),
+    },
+    raises={},
+    assumptions=['configuration: -bedfile, -joinedFeatureTags reference_name, -sampleTags SM; the region (start, end, name) is '
+                 'handed over by create_count_table (its BED loop has its own unit); the table starts empty'],
+)
+UNITS += [assign_single, assign_bed]
